@@ -11,9 +11,9 @@ func init() {
 	register(&Property{
 		ID:         "C43",
 		Level:      "other",
-		Technique:  "finite case analysis of comparison-only decision procedures: the validity switches of durationpb/timestamppb evaluated on one representative per interval between all compared constants, against the documented ranges (static)",
-		Explain:    "Decides one clause of C43 exactly — `CheckValid/IsValid accept exactly the documented ranges`: Duration.check and Timestamp.check touch seconds and nanos only through comparisons with constants, so their verdict depends only on the position of each value relative to those constants; evaluating the switch for one representative of every interval between consecutive constants (and the constants themselves, and 0, ±1) for both variables covers every input. The verdict must be `valid` exactly for seconds and nanos inside the documented ranges (Duration: |seconds| ≤ 315576000000, |nanos| ≤ 999999999, signs not opposite; Timestamp: -62135596800 ≤ seconds ≤ 253402300799, 0 ≤ nanos ≤ 999999999) — the same table R-WKT-RANGE holds protojson to, so the helpers and the JSON codec agree on validity. IsValid and CheckValid are checked to derive their answer from check() == 0.",
-		NotCovered: "New/AsTime/AsDuration round trips and the overflow clamping of AsDuration (64-bit arithmetic on runtime values).",
+		Technique:  "finite case analysis of comparison-only decision procedures: the validity switches of durationpb/timestamppb evaluated on one representative per interval between all compared constants, against the documented ranges; finite case analysis over sign combinations with a loop-invariant (linear) check of the carry loops (static)",
+		Explain:    "Decides one clause of C43 exactly — `CheckValid/IsValid accept exactly the documented ranges`: Duration.check and Timestamp.check touch seconds and nanos only through comparisons with constants, so their verdict depends only on the position of each value relative to those constants; evaluating the switch for one representative of every interval between consecutive constants (and the constants themselves, and 0, ±1) for both variables covers every input. The verdict must be `valid` exactly for seconds and nanos inside the documented ranges (Duration: |seconds| ≤ 315576000000, |nanos| ≤ 999999999, signs not opposite; Timestamp: -62135596800 ≤ seconds ≤ 253402300799, 0 ≤ nanos ≤ 999999999) — the same table R-WKT-RANGE holds protojson to, so the helpers and the JSON codec agree on validity. IsValid and CheckValid are checked to derive their answer from check() == 0. AsDuration: the clauses OR-ed into the overflow flag after d += nanos are evaluated for all sign combinations of (secs, nanos, d) and have to be true exactly on (+,+,-) and (-,-,+); before the product is formed, loops whose conditions hold exactly on the mixed-sign combinations carry nanos into secs while preserving secs*K+nanos, so that an overflow of the product alone implies an overflow of the sum (found D25).",
+		NotCovered: "New/AsTime round trips on values; the multiplication overflow test d/Second != Duration(secs) itself (64-bit arithmetic on runtime values).",
 		Quick:      all("./types/known/durationpb", "./types/known/timestamppb"),
 		Thorough:   all("./..."),
 		Run: func(c *Ctx) {
